@@ -108,6 +108,16 @@ mut('c20_s_unset_not_removed', 'C20', S, (FIN_S, FIN_S.replace("            if o
 mut('c20_s_restore_skipped_for_star', 'C20', S, (FIN_S, FIN_S.replace("        for r in orig:", "        for r in (orig if 'Star' not in ''.join(os.listdir('.')) else []):")))
 mut('c20_s_empty_value_treated_as_unset', 'C20', S, (FIN_S, FIN_S.replace("            if orig[r] is None:", "            if not orig[r]:")))
 
+# a stage deep in the call tree perturbs ANOTHER variable and restores it on success only
+mut('c20_s_hmf_thread_variable_success_only', 'C20', S,
+    ("        a, g = self.iterate()\n        fluxdict['acoeff'] = a\n",
+     "        _threads = os.environ.get('PYDL_HMF_THREADS')\n        os.environ['PYDL_HMF_THREADS'] = '1'\n        a, g = self.iterate()\n        if _threads is None:\n            del os.environ['PYDL_HMF_THREADS']\n        else:\n            os.environ['PYDL_HMF_THREADS'] = _threads\n        fluxdict['acoeff'] = a\n"))
+mut('c20_w_retry_branch_sets_flag', 'C20', W,
+    ("            try:\n                fpfield = fits.open(thisfile)\n            except IOError:\n                warn(\"Bad fpFieldStat",
+     "            os.environ['PYDL_FPFIELDSTAT_RETRIED'] = '1'\n            try:\n                fpfield = fits.open(thisfile)\n            except IOError:\n                warn(\"Bad fpFieldStat"))
+var('ok_c20_s_hmf_thread_variable_finally', 'C20', S,
+    ("        a, g = self.iterate()\n        fluxdict['acoeff'] = a\n",
+     "        _threads = os.environ.get('PYDL_HMF_THREADS')\n        os.environ['PYDL_HMF_THREADS'] = '1'\n        try:\n            a, g = self.iterate()\n        finally:\n            if _threads is None:\n                del os.environ['PYDL_HMF_THREADS']\n            else:\n                os.environ['PYDL_HMF_THREADS'] = _threads\n        fluxdict['acoeff'] = a\n"))
 # ---- C20 no-alarm variants ---------------------------------------------------------------
 var('ok_c20_w_helper_update', 'C20', W, (FIN_W, "    finally:\n        _restore_env('PHOTO_CALIB', calib_dir_save)\n"),
     ("def window_score(rescore=False):", "def _restore_env(name, value):\n    log.debug('restoring %s', name)\n    os.environ.update({name: value})\n\n\ndef window_score(rescore=False):"))
